@@ -282,6 +282,10 @@ func c20Alias(cs c20Case) (fs []F) {
 	}
 	before := takeSnap20(parent)
 	hw := hdr(w)
+	if want := (header{cs.C, dyn.Types[t].Bits, 0, cs.C * (cs.K - cs.N), 0, cs.K - cs.N}); hw != want {
+		fail("shape", "the zero-length window has shape %+v, want %+v", hw, want)
+		return
+	}
 	try := func(what string, f func() int) {
 		ret := -1
 		if p, msg := dyn.Try(func() { ret = f() }); p {
@@ -310,7 +314,7 @@ func c20Alias(cs c20Case) (fs []F) {
 		}
 	}
 	try("Write into the zero-length window", func() int { return dyn.Write(sl, w) })
-	if hw.Cap == 0 {
+	if cs.K == cs.N {
 		// the window begins at the parent's capacity: it has no storage at all, single-sample appends are no-ops
 		try("AppendSample x3 on the window without capacity", func() int {
 			for i := 0; i < 3; i++ {
